@@ -20,7 +20,7 @@ PROP = dict(
     assumptions=["goroutine interleavings inside the connection are chosen by the Go runtime (GOMAXPROCS=1), not enumerated; oracles are schedule-independent",
                  "crypto/rand pinned per run with cryptotest.SetGlobalRandom; math/rand seeded",
                  "bounded liveness: with <= 3 faults every transfer must finish within 20 s of virtual time"],
-    level_text="Exhaustive fault enumeration on the real client and server: every schedule of <= k faults (drop, duplicate, two delays, four bit flips, three truncations) among the datagrams of scripted scenarios, both directions, handshake included, plain and Chrome_115 spec-driven clients, QUIC v1 and v2, with a byte-array oracle on every Read; plus (part outages) transfers of several congestion windows with an outage of 100 ms or 1 s (every datagram of one direction lost) starting at any datagram, after which the transfer must complete. This is the level the property's own quantifier names (every schedule of up to k faults among the first N datagrams). Every execution is also read by the passive wire monitor (mc/lib/wiremon): each datagram either endpoint SENT is opened with independent packet protection (mc/lib/ref5, secrets from the TLS key log), its frames are parsed by an independent parser, and sender-side invariants are checked (packet numbers increase and stay decodable for what the sender knows to be acknowledged; ACK frames name only packets whose intact copy had arrived; retransmissions never change stream or CRYPTO bytes; data, stream counts and final sizes stay within the limits that had reached the sender, read from the ClientHello / EncryptedExtensions; frames fit their encryption level; 1-RTT packets use connection IDs the peer issued and the sender has not retired; nothing but CONNECTION_CLOSE after CONNECTION_CLOSE). What an endpoint can have received is over-approximated from fates and virtual times, so the monitor can miss but not invent a violation; exchanges with injected datagrams are not judged by it. Component level (target e1): the C04 world (real SendStream / ReceiveStream pairs, BFS over write / pop / ack / lose / deliver / close) is run under C01 with the oracle that a send stream may report itself completed only when every byte written before Close has been acknowledged. Lock-point level (target e3): the send-side thread mixes of mc/c04/e3 (one real SendStream behind the real framer, application Write / Close / CancelWrite racing with the run loop's Append / popStreamFrame / OnAcked / OnLost, every mutex Lock and Unlock of send_stream.go and framer.go a scheduler point, preemption bound 2 [3]) run under C01 with the oracle that bytes or a FIN accepted from the application are handed to the packer once the run loop asks again (a lost stream activation leaves them unsent for ever).",
+    level_text="Exhaustive fault enumeration on the real client and server: every schedule of <= k faults (drop, duplicate, two delays, five bit flips (one in the source connection ID), three truncations) among the datagrams of scripted scenarios, both directions, handshake included, plain and Chrome_115 spec-driven clients, QUIC v1 and v2, with a byte-array oracle on every Read; plus (part outages) transfers of several congestion windows with an outage of 100 ms or 1 s (every datagram of one direction lost) starting at any datagram, after which the transfer must complete. This is the level the property's own quantifier names (every schedule of up to k faults among the first N datagrams). Every execution is also read by the passive wire monitor (mc/lib/wiremon): each datagram either endpoint SENT is opened with independent packet protection (mc/lib/ref5, secrets from the TLS key log), its frames are parsed by an independent parser, and sender-side invariants are checked (packet numbers increase and stay decodable for what the sender knows to be acknowledged; ACK frames name only packets whose intact copy had arrived; retransmissions never change stream or CRYPTO bytes; data, stream counts and final sizes stay within the limits that had reached the sender, read from the ClientHello / EncryptedExtensions; frames fit their encryption level; 1-RTT packets use connection IDs the peer issued and the sender has not retired; nothing but CONNECTION_CLOSE after CONNECTION_CLOSE). What an endpoint can have received is over-approximated from fates and virtual times, so the monitor can miss but not invent a violation; exchanges with injected datagrams are not judged by it. Component level (target e1): the C04 world (real SendStream / ReceiveStream pairs, BFS over write / pop / ack / lose / deliver / close) is run under C01 with the oracle that a send stream may report itself completed only when every byte written before Close has been acknowledged. Lock-point level (target e3): the send-side thread mixes of mc/c04/e3 (one real SendStream behind the real framer, application Write / Close / CancelWrite racing with the run loop's Append / popStreamFrame / OnAcked / OnLost, every mutex Lock and Unlock of send_stream.go and framer.go a scheduler point, preemption bound 2 [3]) run under C01 with the oracle that bytes or a FIN accepted from the application are handed to the packer once the run loop asks again (a lost stream activation leaves them unsent for ever).",
     level_note="Trusted: testutils/simnet + testing/synctest virtual time; the byte-pattern oracle; scenarios and sizes <= 5 kB; the runtime's goroutine schedule is not enumerated.",
     technique="exhaustive fault-schedule enumeration (<= k faults among the first N datagrams) on real endpoints in virtual time",
 )
